@@ -46,12 +46,14 @@ def parseDT (s : String) : R DT :=
   | "f8" => pure .f8
   | "f4" => pure .f4
   | "i8" => pure .i8
+  | "b1" => pure .b1
   | _ => throw s!"bad dtype {s}"
 
 def dtName : DT → String
   | .f8 => "f8"
   | .f4 => "f4"
   | .i8 => "i8"
+  | .b1 => "b1"
 
 def parseDArr (j : Json) : R DArr := do
   let off ← getList asInt j "off"
@@ -59,6 +61,7 @@ def parseDArr (j : Json) : R DArr := do
   let fs ← getList (fun f => do
     let nm ← getStr f "name"
     let dt ← getStr f "dtype" >>= parseDT
+    if dt == .b1 then throw "boolean fields are not modelled in the structured variant"
     let data ← getList (asOpt asRat) f "data"
     if data.length ≠ shape.foldl (· * ·) 1 then throw "data/shape mismatch"
     -- an integer field holds integers (no NaN)
@@ -68,6 +71,40 @@ def parseDArr (j : Json) : R DArr := do
   pure { off := off, shape := shape, fields := fs }
 
 def jV : V → Json := jOpt jRat
+
+/-- extended values: `null` NaN, `"inf"`, `"-inf"`, else an exact rational -/
+def asEV (j : Json) : R EV :=
+  match j with
+  | .null => pure .nan
+  | .str "inf" => pure .pinf
+  | .str "-inf" => pure .ninf
+  | _ => EV.fin <$> asRat j
+
+def jEV : EV → Json
+  | .nan => .null
+  | .pinf => jStr "inf"
+  | .ninf => jStr "-inf"
+  | .fin x => jRat x
+
+/-- a pixel of a canvas of dtype `cdt`: inside an integer canvas `nan` is the undefined content -/
+def jPx (cdt : DT) (v : EV) : Json :=
+  if cdt == .i8 && v.isNan then jStr "undef" else jEV v
+
+def mkGetE (shape : List Nat) (data : Array EV) : Idx → EV := fun idx =>
+  match flatIndex shape idx with
+  | some k => (data[k]?).getD .nan
+  | none => .nan
+
+def parseArrE (j : Json) : R ArrE := do
+  let off ← getList asInt j "off"
+  let shape ← getList asNat j "shape"
+  let dt ← getStr j "dtype" >>= parseDT
+  let data ← getList asEV j "data"
+  if data.length ≠ shape.foldl (· * ·) 1 then throw "data/shape mismatch"
+  -- an integer image holds finite integers, a boolean image 0 / 1
+  if dt == .i8 && data.any (fun v => !v.intVal) then throw "non-integer value in an integer image"
+  if dt == .b1 && data.any (fun v => !(v == .fin 0 || v == .fin 1)) then throw "value other than 0 / 1 in a boolean image"
+  pure { off := off, shape := shape, dt := dt, get := mkGetE shape data.toArray }
 
 /-- `none`: NaN cast to an integer (platform dependent, not compared) -/
 def jCast : Option V → Json
@@ -84,6 +121,24 @@ def handle (op : String) (req : Json) : R Json := do
     let (sh, mv) := overlap false m fill ndim arrs
     let (_, sv) := overlap true m fill ndim arrs
     pure (jObj [("shape", jList jInt sh), ("model", jList jV mv), ("spec", jList jV sv)])
+  | "c11.overlapD" =>
+    -- plain merge with image dtypes and extended values: exception class, or dtype, shape, the mechanism's pixels
+    -- (`model`), the demanded values as the canvas holds them (`spec` = `specD`), the demanded values themselves
+    -- (`exact` = `specE`) and, per pixel, whether the hypothesis of theorem `pixel_specD` holds (`hyp`)
+    let m ← getStr req "mode" >>= parseMode
+    let fill ← fld req "fill" >>= asEV
+    let ndim ← getNat req "ndim"
+    let arrs ← getList parseArrE req "arrays"
+    if arrs.isEmpty then throw "empty list of images"
+    match overlapD false m fill ndim arrs, overlapD true m fill ndim arrs with
+    | .ok (cdt, sh, mv), .ok (_, _, sv) =>
+      let n := normaliseE ndim arrs
+      let idx := allIdx (sh.map Int.toNat)
+      pure (jObj [("dtype", jStr (dtName cdt)), ("shape", jList jInt sh), ("model", jList (jPx cdt) mv),
+                  ("spec", jList (jPx cdt) sv), ("exact", jList jEV (idx.map (specE m fill n))),
+                  ("hyp", jList jBool (idx.map (hypD cdt m n)))])
+    | .error e, .error e' => pure (jObj [("raises", jStr e), ("specRaises", jStr e'), ("dtype", jStr (dtName (canvasOf arrs)))])
+    | _, _ => throw "model and specification disagree on raising"
   | "c11.structured" =>
     let m ← getStr req "mode" >>= parseMode
     let fill ← fld req "fill" >>= asOpt asRat
